@@ -333,6 +333,8 @@ def pt_one_spec(ctx, spec, narr, nvals, kinds=G.ALL_KINDS):
             ctx.count('reorganisation:' + l)
         ctx.count('tags:' + spec.tags)
         for codec in G.CODECS:
+            if codec == 'xer' and spec.has_tree:
+                continue        # known finding xer-recursive-element-wrapper
             comp = [lib.attempt(asn1tools.compile_dict, copy.deepcopy(d), codec) for d in parsed]
             c0 = comp[0]
             for i in range(1, narr):
@@ -367,7 +369,8 @@ def pt_one_spec(ctx, spec, narr, nvals, kinds=G.ALL_KINDS):
                         if e0[0] != 'ok':
                             continue
                         d0 = lib.attempt(c0[1].decode, n, e0[1])
-                        di = lib.attempt(ci[1].decode, n, e0[1])
+                        # (XER with renamed items: each arrangement decodes its own encoding)
+                        di = lib.attempt(ci[1].decode, n, ei[1] if codec == 'xer' and elem_renamed and ei[0] == 'ok' else e0[1])
                         if cls(d0) != cls(di):
                             ctx.violation('%s: decoded values of %s differ between two arrangements: %r vs %r' % (
                                 codec, n, show(d0), show(di)), dict(here, type=n, value=repr(v), data=e0[1].hex()))
